@@ -21,7 +21,7 @@ theorem desPass_spec (hσ : σ < 2 ^ 12) (KS : List Nat) (hl : KS.length = 16) (
   unfold desPass
   rw [innerIdx_eq, inner_spec σ hσ (ksWords KS) 8 KS 0 L R (by omega) hK hL hR
     (fun t ht => by simpa using ksWords_getD KS t ht)]
-  rfl
+  simp only [specPass]
 
 theorem specPass_lt (m : Nat) (KS : List Nat) (L R : Nat) (hL : L < 2 ^ 32) (hR : R < 2 ^ 32) :
     (specPass m KS (L, R)).1 < 2 ^ 32 ∧ (specPass m KS (L, R)).2 < 2 ^ 32 :=
@@ -42,6 +42,17 @@ theorem passes_spec (hσ : σ < 2 ^ 12) (KS : List Nat) (hl : KS.length = 16) (h
     rw [desPass_spec σ hσ KS hl hK L R hL hR]
     exact ih _ _ hb.1 hb.2
 
+theorem des_unfold (m : Nat) (ks : List Nat) (block : Nat) :
+    Spec.des m ks block =
+      Spec.permF Spec.FP 64
+        ((Spec.rounds m ks (Spec.permF Spec.IP 64 block / 4294967296, Spec.permF Spec.IP 64 block % 4294967296)).2 *
+            4294967296 +
+          (Spec.rounds m ks (Spec.permF Spec.IP 64 block / 4294967296, Spec.permF Spec.IP 64 block % 4294967296)).1) := by
+  unfold Spec.des
+  generalize Spec.permF Spec.IP 64 block = ip
+  cases Spec.rounds m ks (ip / 4294967296, ip % 4294967296)
+  simp only []
+
 /-- one textbook DES encryption of the block whose IP-image is `L‖R`. -/
 theorem des_spec (m : Nat) (KS : List Nat) (L R : Nat) (hL : L < 2 ^ 32) (hR : R < 2 ^ 32) :
     Spec.des m KS (Spec.permF Spec.FP 64 (L * 4294967296 + R)) =
@@ -49,11 +60,9 @@ theorem des_spec (m : Nat) (KS : List Nat) (L R : Nat) (hL : L < 2 ^ 32) (hR : R
   have hX : L * 4294967296 + R < 2 ^ 64 := by
     have : L * 4294967296 ≤ (2 ^ 32 - 1) * 4294967296 := Nat.mul_le_mul_right _ (by omega)
     omega
-  unfold Spec.des
-  simp only []
-  rw [ip_fp_cancel _ hX, show (L * 4294967296 + R) / 4294967296 = L by omega,
+  rw [des_unfold, ip_fp_cancel _ hX, show (L * 4294967296 + R) / 4294967296 = L by omega,
     show (L * 4294967296 + R) % 4294967296 = R by omega]
-  rfl
+  simp only [specPass]
 
 theorem iter_des_spec (m : Nat) (KS : List Nat) : ∀ (n L R : Nat), L < 2 ^ 32 → R < 2 ^ 32 →
     Spec.iter (Spec.des m KS) n (Spec.permF Spec.FP 64 (L * 4294967296 + R)) =
